@@ -851,7 +851,9 @@ func mustFail(c *Case, o Op, ex fr.Exchange) bool {
 			// a 404 means "no referrers index yet"; 200 is the success status
 			return c.Cor.Arg != "404" && c.Cor.Arg != "200" && c.Cor.Arg != strconv.Itoa(origStatusOf(ex))
 		case "type-garbage", "type-drop":
-			return ok2xx(orig)
+			// a GET without Content-Length is described by the following HEAD; its own
+			// Content-Type is then never looked at
+			return ok2xx(orig) && (q.M == "HEAD" || ex.R.CLen != nil)
 		}
 		return false // name-unknown = a 404; the media type of the index is not something that was requested
 	}
@@ -1074,6 +1076,11 @@ func execHistory(id string, c *Case) (nreq int) {
 				sig = "head-tag-no-digest-header"
 				run.Count("known:" + sig)
 				knownSeen++
+				if viaTagSchema && o.Kind != "preds" {
+					// the call failed half way (manifest stored / not deleted, index not updated):
+					// the registry state after it is not fixed by the property
+					judging = false
+				}
 				if knownSeen > 25 {
 					continue // reported often enough in this run; counted above
 				}
